@@ -68,7 +68,7 @@ type Param struct{ Name, Type string }
 var clauseKeywords = map[string]bool{"func": true, "spec": true, "lemma": true, "requires": true, "ensures": true, "modifies": true,
 	"pure": true, "inline": true, "assumed": true, "fp": true, "loop": true, "ghost": true, "property": true, "opaque": true,
 	"noframe": true, "trusted": true, "deterministic": true, "maxinline": true, "allowpanic": true, "import": true, "intsmath": true, "nocanary": true,
-	"havocglobals": true, "readsheap": true, "alloclimit": true, "casesplit": true, "table": true, "inlinecalls": true, "unrollcalls": true, "replay": true, "fpcmp": true, "stream": true, "timeout": true, "thorough": true, "terminates": true, "decreases": true, "absmod": true, "fcomm": true, "remwrap": true, "ifacenonnil": true}
+	"havocglobals": true, "readsheap": true, "alloclimit": true, "casesplit": true, "table": true, "inlinecalls": true, "unrollcalls": true, "replay": true, "fpcmp": true, "stream": true, "timeout": true, "thorough": true, "terminates": true, "decreases": true, "absmod": true, "fcomm": true, "remwrap": true, "ifacenonnil": true, "remopaque": true}
 
 type ContractSet struct {
 	ByPkg   map[string][]*Contract // pkg dir -> contracts in file order
